@@ -29,6 +29,37 @@ pub struct ExecStats {
     pub spurious_polls: u64,
     pub ticks: u64,
     pub wakes_fired: u64,
+    pub migrated_polls: u64,
+}
+
+thread_local! {
+    /// When set, every second poll of the future runs on a *fresh OS thread* (task migration, as under a
+    /// multi-threaded runtime): state that the code under test keeps in thread-locals between polls is exposed.
+    pub static MIGRATE: std::cell::Cell<bool> = const { std::cell::Cell::new(false) };
+}
+
+struct AssertSend<T>(T);
+// SAFETY: used only for a strict hand-off — the owning thread blocks in `join` while the helper polls, so the
+// future is never touched by two threads at once and the thread join provides the happens-before edges.
+unsafe impl<T> Send for AssertSend<T> {}
+
+fn poll_on_fresh_thread<F: Future>(fut: &mut Pin<Box<F>>, waker: &Waker) -> Poll<F::Output> {
+    let p = AssertSend(fut as *mut Pin<Box<F>>);
+    let w = waker.clone();
+    let r = std::thread::scope(|s| {
+        s.spawn(move || {
+            let p = p;
+            crate::hashseed::set_thread_seed(0x6d69_6772_6174_65);
+            let fut: &mut Pin<Box<F>> = unsafe { &mut *p.0 };
+            let mut cx = Context::from_waker(&w);
+            AssertSend(fut.as_mut().poll(&mut cx))
+        })
+        .join()
+    });
+    match r {
+        Ok(x) => x.0,
+        Err(e) => std::panic::resume_unwind(e),
+    }
 }
 
 pub fn run_scripted<F: Future>(core: &Arc<SimCore>, fut: F, max_polls: u64) -> (Result<F::Output, ExecViolation>, ExecStats) {
@@ -55,7 +86,13 @@ pub fn run_scripted<F: Future>(core: &Arc<SimCore>, fut: F, max_polls: u64) -> (
             if st.polls > max_polls {
                 return (Err(ExecViolation::Livelock { polls: st.polls }), st);
             }
-            if let Poll::Ready(v) = Pin::as_mut(&mut fut).poll(&mut cx) {
+            let polled = if MIGRATE.with(|m| m.get()) && st.polls % 2 == 0 {
+                st.migrated_polls += 1;
+                poll_on_fresh_thread(&mut fut, &waker)
+            } else {
+                Pin::as_mut(&mut fut).poll(&mut cx)
+            };
+            if let Poll::Ready(v) = polled {
                 return (Ok(v), st);
             }
             if flag.woken.load(Ordering::SeqCst) {
